@@ -11,10 +11,11 @@ static const char *const RAT[] = { "residual_over_allowance", "lu_identity_over_
 
 /* fam A: ALL(1..3) x vals x colperm x u x sym x stor x tuning x type x rhs-shape */
 static const int TUNE_A[] = { 0, 2, 3 };
+static const int VALS_A[] = { 0, 1, 2, 3, 4, 5, 6, 15, 7 };   /* V15: complex entries whose real and imaginary parts have opposite signs */
 static const int RHSN[] = { 1, 2 }, RHSLD[] = { 0, 2 };
 static void setA(const int *d, vcase *c)
 {
-    all123(d[0], &c->n, &c->pat); c->m = c->n; c->vals = d[1]; c->colperm = d[2]; c->u = U_LIST[d[3]]; c->sym = d[4]; c->stor = d[5];
+    all123(d[0], &c->n, &c->pat); c->m = c->n; c->vals = VALS_A[d[1]]; c->colperm = d[2]; c->u = U_LIST[d[3]]; c->sym = d[4]; c->stor = d[5];
     set_tune(c, TUNE_A[d[6]]); c->type = d[7]; c->nrhs = RHSN[d[8]]; c->ldbx = RHSLD[d[8]]; c->rhs = d[8]; c->permid = -1;
 }
 /* fam B: ALL(4) x {V1,V3} x colperm x {1,.1} x tuning{3,5} x stor x type */
@@ -27,13 +28,13 @@ static void setB(const int *d, vcase *c)
 /* fam C: DEV_1(BASE(6)) x vals x colperm x u x sym x stor x 9 tunings x type */
 static void setC(const int *d, vcase *c)
 {
-    c->n = c->m = 6; c->pat = dev1_pattern(6, base_pattern(6, d[0]), d[1]); c->vals = d[2]; c->colperm = d[3]; c->u = U_LIST[d[4]]; c->sym = d[5]; c->stor = d[6];
+    c->n = c->m = 6; c->pat = dev1_pattern(6, base_pattern(6, d[0]), d[1]); c->vals = VALS_A[d[2]]; c->colperm = d[3]; c->u = U_LIST[d[4]]; c->sym = d[5]; c->stor = d[6];
     set_tune(c, d[7]); c->type = d[8]; c->nrhs = 1 + (d[1] % 3 == 0); c->ldbx = (d[1] % 2) * 3; c->rhs = d[1] % 5; c->permid = -1;
 }
 /* fam D (thorough): DEV_1(BASE(8)) */
 static void setD(const int *d, vcase *c)
 {
-    c->n = c->m = 8; c->pat = dev1_pattern(8, base_pattern(8, d[0]), d[1]); c->vals = d[2]; c->colperm = d[3]; c->u = U_LIST[d[4]]; c->sym = d[5]; c->stor = d[6];
+    c->n = c->m = 8; c->pat = dev1_pattern(8, base_pattern(8, d[0]), d[1]); c->vals = VALS_A[d[2]]; c->colperm = d[3]; c->u = U_LIST[d[4]]; c->sym = d[5]; c->stor = d[6];
     set_tune(c, d[7]); c->type = d[8]; c->nrhs = 1 + (d[1] % 3 == 0); c->ldbx = (d[1] % 2) * 3; c->rhs = d[1] % 5; c->permid = -1;
 }
 /* fam E (thorough): ALL(4) with all value schemes and more tunings, d/z */
@@ -74,19 +75,19 @@ static void setT(const int *d, vcase *c)
 }
 #define N_TALL (2 + 8 + 64 + 256 + 4096 + 1024 + 32768)
 static const family FAM_QUICK[] = {
-    { "ALL(1..3) x V0-6 x colperm5 x u3 x sym2 x stor2 x tune3 x type4 x rhs2", 9, { N_ALL123, 7, 5, 3, 2, 2, 3, 4, 2 }, setA },
+    { "ALL(1..3) x {V0-6,V15} x colperm5 x u3 x sym2 x stor2 x tune3 x type4 x rhs2", 9, { N_ALL123, 8, 5, 3, 2, 2, 3, 4, 2 }, setA },
     { "ALL(4) x {V1,V3} x colperm{NAT,MMD_ATA,MMD_AT+A} x u{1,.1} x tune2 x stor2 x type4", 7, { N_ALL4, 2, 3, 2, 2, 2, 4 }, setB },
-    { "DEV_1(BASE(6)) x V0-6 x colperm5 x u3 x sym2 x stor2 x tune9 x type4", 9, { 9, 37, 7, 5, 3, 2, 2, 9, 4 }, setC },
+    { "DEV_1(BASE(6)) x {V0-6,V15} x colperm5 x u3 x sym2 x stor2 x tune9 x type4", 9, { 9, 37, 8, 5, 3, 2, 2, 9, 4 }, setC },
     { "MY_PERMC all 4! orders x 5041 patterns(diag kept) x {V1,V3} x u{1,.1} x tune2 x type4", 6, { 5041, 2, 24, 2, 2, 4 }, setF },
     { "tall m x n (2x1,3x1,3x2,4x2,4x3,5x2,5x3, all patterns) through xgstrf x {V1,V3} x {NATURAL,COLAMD} x u{1,.1} x tune3 x type4 [C02/C03 only]", 6, { N_TALL, 2, 2, 2, 3, 4 }, setT },
     { "n in {10,12} x (BASE+24 deviations, 120 generated patterns) x {V1,V2,V3} x colperm5 x u{1,.1} x sym2 x tune{default,8,11,12,5} x type4", 7, { N_G(2), 3, 5, 2, 2, 5, 4 }, setG },
 };
 static const family FAM_THOROUGH[] = {
-    { "ALL(1..3) x V0-6 x colperm5 x u3 x sym2 x stor2 x tune3 x type4 x rhs2", 9, { N_ALL123, 7, 5, 3, 2, 2, 3, 4, 2 }, setA },
+    { "ALL(1..3) x {V0-6,V15} x colperm5 x u3 x sym2 x stor2 x tune3 x type4 x rhs2", 9, { N_ALL123, 8, 5, 3, 2, 2, 3, 4, 2 }, setA },
     { "ALL(4) x {V1,V3} x colperm5 x u{1,.1} x tune2 x stor2 x type4", 7, { N_ALL4, 2, 5, 2, 2, 2, 4 }, setB },
-    { "DEV_1(BASE(6)) x V0-6 x colperm5 x u3 x sym2 x stor2 x tune9 x type4", 9, { 9, 37, 7, 5, 3, 2, 2, 9, 4 }, setC },
+    { "DEV_1(BASE(6)) x {V0-6,V15} x colperm5 x u3 x sym2 x stor2 x tune9 x type4", 9, { 9, 37, 8, 5, 3, 2, 2, 9, 4 }, setC },
     { "MY_PERMC all 4! orders x 5041 patterns(diag kept) x {V1,V3} x u{1,.1} x tune2 x type4", 6, { 5041, 2, 24, 2, 2, 4 }, setF },
-    { "DEV_1(BASE(8)) x V0-7 x colperm5 x u4 x sym2 x stor2 x tune9 x type4", 9, { 9, 65, 8, 5, 4, 2, 2, 9, 4 }, setD },
+    { "DEV_1(BASE(8)) x {V0-6,V15,V7} x colperm5 x u4 x sym2 x stor2 x tune9 x type4", 9, { 9, 65, 9, 5, 4, 2, 2, 9, 4 }, setD },
     { "ALL(4) x V0-7 x colperm5 x u4 x tune9 x stor2 x {d,z} x sym2", 8, { N_ALL4, 8, 5, 4, 9, 2, 2, 2 }, setE },
     { "tall m x n (all patterns of 7 shapes) through xgstrf x {V1,V3,V7} x {NATURAL,COLAMD,MMD_ATA} x u3 x tune3 x type4 [C02/C03 only]", 6, { N_TALL, 3, 3, 3, 3, 4 }, setT },
     { "n in {10,12,16} x (BASE+24 deviations, 120 generated patterns) x {V1,V2,V3} x colperm5 x u4 x sym2 x tune{default,8,11,12,5} x type4", 7, { N_G(3), 3, 5, 4, 2, 5, 4 }, setG },
@@ -97,12 +98,12 @@ static void setAs(const int *d, vcase *c)   /* sanitizer builds: ALL(1..3) x {V1
 static void setCs(const int *d, vcase *c)   /* sanitizer builds: BASE(6)+first 12 deviations x V1 x colperm{NAT,COLAMD} x tune{3,5,9} x type4 x stor2 */
 { int e[9] = { d[0], d[1], 1, d[2] ? 3 : 0, 0, 0, d[5], 0, d[4] }; setC(e, c); set_tune(c, (int[]){ 3, 5, 9 }[d[3]]); }
 static const family FAM_ALT[] = {
-    { "ALL(1..3) x V0-6 x colperm5 x u3 x sym2 x stor2 x tune3 x type4 x rhs2", 9, { N_ALL123, 7, 5, 3, 2, 2, 3, 4, 2 }, setA },
-    { "DEV_1(BASE(6)) x V0-6 x colperm5 x u3 x sym2 x stor2 x tune9 x type4", 9, { 9, 37, 7, 5, 3, 2, 2, 9, 4 }, setC },
+    { "ALL(1..3) x {V0-6,V15} x colperm5 x u3 x sym2 x stor2 x tune3 x type4 x rhs2", 9, { N_ALL123, 8, 5, 3, 2, 2, 3, 4, 2 }, setA },
+    { "DEV_1(BASE(6)) x {V0-6,V15} x colperm5 x u3 x sym2 x stor2 x tune9 x type4", 9, { 9, 37, 8, 5, 3, 2, 2, 9, 4 }, setC },
 };
 static const family FAM_ALTQ[] = {
-    { "ALL(1..3) x V0-6 x colperm5 x u{1,.1} x sym2 x stor2 x tune3 x type4 x rhs2", 9, { N_ALL123, 7, 5, 2, 2, 2, 3, 4, 2 }, setA },
-    { "DEV_1(BASE(6)) first 12 deviations x V0-6 x colperm5 x u{1,.1} x sym2 x stor2 x tune9 x type4", 9, { 9, 12, 7, 5, 2, 2, 2, 9, 4 }, setC },
+    { "ALL(1..3) x {V0-6,V15} x colperm5 x u{1,.1} x sym2 x stor2 x tune3 x type4 x rhs2", 9, { N_ALL123, 8, 5, 2, 2, 2, 3, 4, 2 }, setA },
+    { "DEV_1(BASE(6)) first 12 deviations x {V0-6,V15} x colperm5 x u{1,.1} x sym2 x stor2 x tune9 x type4", 9, { 9, 12, 8, 5, 2, 2, 2, 9, 4 }, setC },
 };
 static const family FAM_SAN[] = {
     { "ALL(1..3) x {V1,V3} x colperm5 x u{1,.1} x sym2 x stor2 x tune{2,3,5} x type4", 8, { N_ALL123, 2, 5, 2, 2, 2, 3, 4 }, setAs },
